@@ -184,12 +184,9 @@ func (g *tgen) render() {
 			fmt.Fprintf(&b, "  default%s:\n    cmds:\n      - echo %s default V={{.V}} P={{.P}} IV={{.IV}}\n", sfx, id)
 			fmt.Fprintf(&b, "  show%s:\n    aliases: [s%s]\n    vars: {L: \"{{.V}}-l\"}\n    cmds:\n      - echo %s show V={{.V}} L={{.L}} E=$E\n      - task: default%s\n", sfx, sfx, id, sfx)
 			if f.Flat {
-				// overlapping wildcards across flattened siblings: lint-* (odd files) and *-vet (even files)
-				if i%2 == 1 {
-					fmt.Fprintf(&b, "  \"lint-*\":\n    cmds:\n      - echo %s lint MATCH={{.MATCH}} V={{.V}}\n", id)
-				} else {
-					fmt.Fprintf(&b, "  \"*-vet\":\n    cmds:\n      - echo %s vet MATCH={{.MATCH}} V={{.V}}\n", id)
-				}
+				// overlapping wildcards across flattened siblings: distinct patterns that all match "lint-vet"
+				pat := []string{"lint-v*", "lint-*", "*-vet", "l*-vet"}[i%4]
+				fmt.Fprintf(&b, "  %q:\n    cmds:\n      - echo %s wild MATCH={{.MATCH}} V={{.V}}\n", pat, id)
 			} else {
 				fmt.Fprintf(&b, "  \"build-*\":\n    cmds:\n      - echo %s build MATCH={{.MATCH}} V={{.V}}\n", id)
 			}
